@@ -490,4 +490,17 @@ theorem phase1_of_inv {x0 : ISt} (hKN : KeysNodup c.own) (H : RemHyp c w addrs o
 
 end
 
+-- ------------------------------------------------------------------ `PendOK` by evaluation
+
+/-- the pending-side clause as a check (for concrete histories) -/
+def pendOKb (addrs : List Addr) (s : Store) (chain : List Block) : Bool :=
+  s.pendCred.all (fun e => addrs.contains e.2.sh || !(idsOf (occs chain)).contains e.1.1)
+
+theorem pendOK_of_check {addrs : List Addr} {s : Store} {chain : List Block} (h : pendOKb addrs s chain = true) :
+    PendOK addrs s chain := by
+  intro e he hsh hmem
+  have := List.all_eq_true.1 h e he
+  rw [hsh, Bool.false_or, List.contains_iff_mem.2 hmem] at this
+  cases this
+
 end MW.Lemmas.RemoveInterleave
